@@ -42,6 +42,8 @@ type Call struct {
 	OK    bool        `json:"ok"`
 	Rows  [][3]string `json:"rows"`
 	Docs  []string    `json:"docs,omitempty"` // time_series.labels, hex
+	Tag   string      `json:"tag,omitempty"`  // group step: "held" = the INSERT that was kept waiting inside the client while the members queued up
+	M     int         `json:"m,omitempty"`    // group step: the member that was being sent when the INSERT reached the client
 }
 
 type backend struct {
@@ -51,6 +53,12 @@ type backend struct {
 	calls []Call
 	nSpl  int
 	nRows int // sample rows that reached the client
+	// group step (shared.go): the first time_series INSERT that reaches the client is kept waiting until the gate opens
+	gate      chan struct{}
+	gateTaken bool
+	held      bool
+	tsOK0     bool // outcome of the INSERT that was kept waiting
+	member    int
 }
 
 var be = &backend{tsOK: true, splOK: true}
@@ -112,8 +120,28 @@ func colStr(d proto.ColInput) []string {
 }
 
 func (fakeClient) Do(ctx context.Context, q ch.Query) error {
+	if strings.Contains(q.Body, "INSERT INTO time_series") {
+		// a slow ClickHouse: while this INSERT waits for its answer the service collects the rows of the requests
+		// that arrive in ONE pending buffer (InsertServiceV2.Run is blocked in fetchLoopIteration)
+		be.mtx.Lock()
+		var gate chan struct{}
+		if be.gate != nil && !be.gateTaken {
+			be.gateTaken, be.held, gate = true, true, be.gate
+		}
+		be.mtx.Unlock()
+		if gate != nil {
+			<-gate
+			be.mtx.Lock()
+			defer be.mtx.Unlock()
+			return be.record(q, true)
+		}
+	}
 	be.mtx.Lock()
 	defer be.mtx.Unlock()
+	return be.record(q, false)
+}
+
+func (be *backend) record(q ch.Query, held bool) error {
 	cols := map[string]proto.ColInput{}
 	for _, in := range q.Input {
 		cols[in.Name] = in.Data
@@ -123,6 +151,9 @@ func (fakeClient) Do(ctx context.Context, q ch.Query) error {
 	case strings.Contains(q.Body, "INSERT INTO time_series"):
 		c.Table = "time_series"
 		c.OK = be.tsOK
+		if held {
+			c.OK, c.Tag = be.tsOK0, "held"
+		}
 		tp, dt, fp, lb := colU8(cols["type"]), colDate(cols["date"]), colU64(cols["fingerprint"]), colStr(cols["labels"])
 		if len(tp) != len(dt) || len(dt) != len(fp) || len(fp) != len(lb) {
 			panic(fmt.Sprintf("time_series block with unequal columns %d %d %d %d", len(tp), len(dt), len(fp), len(lb)))
@@ -134,6 +165,7 @@ func (fakeClient) Do(ctx context.Context, q ch.Query) error {
 	case strings.Contains(q.Body, "INSERT INTO samples"):
 		c.Table = "samples"
 		c.OK = be.splOK
+		c.M = be.member
 		be.nSpl++
 		tp, fp, ts := colU8(cols["type"]), colU64(cols["fingerprint"]), colI64(cols["timestamp_ns"])
 		be.nRows += len(ts)
@@ -213,7 +245,8 @@ func setup() *mux.Router {
 		Dbv3Map:         []ch_wrapper.IChClientFactory{factory},
 	}}
 	p.CreateStaticServiceRegistry(*config.Cloki.Setting, &impl.DevInsertServiceFactory{})
-	controllerv1.Registry = plugin.ServiceRegistry
+	// the registry the plugin built, with the time_series service of the node behind a counting pass-through (shared.go)
+	controllerv1.Registry = registryWithCountedTs()
 	controllerv1.FPCache = plugin.GoCache
 	r := mux.NewRouter()
 	cfg := controllerv1.NewMiddlewareConfig(controllerv1.WithExtraMiddlewareDefault...)
@@ -378,10 +411,21 @@ type Step struct {
 	TsOK    bool     `json:"ts_ok"`
 	SplOK   bool     `json:"spl_ok"`
 	Retry   bool     `json:"retry,omitempty"` // same body as the previous push (a client retry)
+	// group (shared.go): the pushes Members[0], Members[1], ... arrive one after the other while ClickHouse is slow to answer the
+	// time_series INSERT of Members[0]: the series rows of Members[1..] wait in ONE pending buffer of the insert service and go
+	// out in ONE INSERT. TsOK0: outcome of the INSERT of Members[0]; TsOK: outcome of the shared INSERT; samples per member.
+	Members []Member `json:"members,omitempty"`
+	TsOK0   bool     `json:"ts_ok0,omitempty"`
+}
+type Member struct {
+	Streams []Stream `json:"streams"`
+	SplOK   bool     `json:"spl_ok"`
 }
 type StepObs struct {
-	Status int    `json:"status"`
-	Calls  []Call `json:"calls"`
+	Status   int    `json:"status"`
+	Calls    []Call `json:"calls"`
+	Statuses []int  `json:"statuses,omitempty"` // group: the answer to every member
+	Shared   bool   `json:"shared,omitempty"`   // group: an INSERT was kept waiting while the other members queued up
 }
 type HCase struct {
 	ID    int       `json:"id"`
@@ -792,11 +836,20 @@ func runHistCase(r *mux.Router, c *HCase) {
 	c.Panic = hx.Catch(func() {
 		for i := range c.Steps {
 			st := &c.Steps[i]
-			for j := range st.Streams {
-				st.Streams[j].Fp = strconv.FormatUint(fpOf(labelsOf(st.Streams[j])), 10)
-				st.Streams[j].San = hexPairs(unmarshal.VerifC04SanitizeLabels(copyLabels(labelsOf(st.Streams[j]))))
+			fill := func(ss []Stream) {
+				for j := range ss {
+					ss[j].Fp = strconv.FormatUint(fpOf(labelsOf(ss[j])), 10)
+					ss[j].San = hexPairs(unmarshal.VerifC04SanitizeLabels(copyLabels(labelsOf(ss[j]))))
+				}
+			}
+			fill(st.Streams)
+			for m := range st.Members {
+				fill(st.Members[m].Streams)
 			}
 			switch st.K {
+			case "group":
+				st.Idx = len(open)
+				c.Obs = append(c.Obs, runGroup(r, st))
 			case "reset":
 				resetCache()
 				c.Obs = append(c.Obs, StepObs{})
@@ -882,15 +935,17 @@ func runHist(f *hx.Flags, out *hx.Out) {
 			out.Put(c)
 		}
 	}
+	// pushes that announce the same new series into one pending buffer of the time_series insert service
+	for k := 0; k < reps(f.N); k++ {
+		for _, p := range sharedPatterns() {
+			c := genSharedHist(rnd, id, p)
+			id++
+			runHistCase(r, &c)
+			out.Put(c)
+		}
+	}
 	// a request of 2..4 chunks with one failing insert (every position), then the client's second attempt
-	reps := f.N / 250
-	if reps < 1 {
-		reps = 1
-	}
-	if reps > 20 {
-		reps = 20
-	}
-	for k := 0; k < reps; k++ {
+	for k := 0; k < reps(f.N); k++ {
 		for _, p := range retryPatterns() {
 			c := genRetryHist(rnd, id, p)
 			id++
@@ -898,6 +953,17 @@ func runHist(f *hx.Flags, out *hx.Out) {
 			out.Put(c)
 		}
 	}
+}
+
+func reps(n int) int {
+	reps := n / 250
+	if reps < 1 {
+		reps = 1
+	}
+	if reps > 20 {
+		reps = 20
+	}
+	return reps
 }
 
 // ------------------------------------------------------------------ dates under a process time zone
